@@ -43,7 +43,7 @@ fn wire_has(req: &RawRequest, binding: &str, wire: &str) -> bool {
 fn cause_of(classes: &[(String, &'static str)], input_struct: &str, member: &str) -> &'static str {
     let key = format!("{input_struct}.{member}");
     const ORDER: &[&str] = &[
-        "header-double-space", "header-special", "query-empty", "query-special", "query-nonascii", "key-special", "key-nonascii", "xml-whitespace", "xml-empty", "xml-markup", "xml-nonascii",
+        "header-empty", "header-double-space", "header-special", "query-empty", "query-special", "query-nonascii", "key-special", "key-nonascii", "xml-whitespace", "xml-empty", "xml-markup", "xml-nonascii",
         "enum-unknown",
     ];
     let mine: Vec<&'static str> = classes.iter().filter(|(k, _)| *k == key).map(|(_, c)| *c).collect();
@@ -296,7 +296,8 @@ pub fn run(ctx: &RunCtx) -> i32 {
         LoopCfg { host: HostCfg::None, vhost: false, auth: true, hops: 1 },
         LoopCfg { host: HostCfg::None, vhost: false, auth: false, hops: 2 },
     ];
-    let n_random = ctx.tier.sz(24, 2000);
+    let n_random = ctx.tier.sz(320, 40_000);
+    let sys_reps = ctx.tier.sz(6, 80);
     let total = par_run(ctx.workers, ops.len() as u64, |j, r| {
         let rt = new_runtime();
         let info = ops[j as usize];
@@ -306,8 +307,12 @@ pub fn run(ctx: &RunCtx) -> i32 {
             if mi.rust.is_empty() || mi.required {
                 continue;
             }
-            let case = LCase { op: op.into(), cfg: cfgs[mi_idx % 2].clone(), seed: derive_seed(ctx.seed, op, 0x5151_0000 + mi_idx as u64).to_string(), presence: "minimal".into(), focus: Some(mi.rust.to_owned()) };
-            judge_looped(&rt, r, &case);
+            // several values per member, so that every value class of its alphabet (empty, inner double
+            // space, separators, non-ASCII, ...) is met with the member standing alone
+            for rep in 0..sys_reps {
+                let case = LCase { op: op.into(), cfg: cfgs[((mi_idx as u64 + rep) % 2) as usize].clone(), seed: derive_seed(ctx.seed, op, 0x5151_0000 + mi_idx as u64 + (rep << 20)).to_string(), presence: "minimal".into(), focus: Some(mi.rust.to_owned()) };
+                judge_looped(&rt, r, &case);
+            }
         }
         // random
         for i in 0..n_random {
@@ -317,7 +322,7 @@ pub fn run(ctx: &RunCtx) -> i32 {
             judge_looped(&rt, r, &case);
         }
         // reject cases
-        for k in 0..ctx.tier.sz(1, 20) {
+        for k in 0..ctx.tier.sz(3, 200) {
             reject_cases(&rt, r, op, derive_seed(ctx.seed ^ 0x77, op, k));
         }
     });
